@@ -10,7 +10,7 @@ def run(ctx):
     for fs in ctx.featuresets():
         c = ctx.mir(fs)["ts_rs"]
         res = [E.registry_key_rule(c, "C06"), E.first_touch_rule(c, "C06"), E.env_rule(c, "C06"), E.walk_rule(c, "C06"),
-               E.single_writer_rule(c, "C06", ctx.syn), MR.import_union_rule(c, "C06", rule="C06.R5"), E.normaliser_purity_rule(c, "C06"), E.fs_query_owner_rule(c, "C06")]
+               E.single_writer_rule(c, "C06", ctx.syn), MR.import_union_rule(c, "C06", rule="C06.R5"), E.normaliser_purity_rule(c, "C06"), E.fs_query_owner_rule(c, "C06"), E.visitor_predicates_rule(c, "C06", rule="C06.R10")]
         for r in res:
             if fs != "default":
                 r.rule += "@" + fs
